@@ -6,6 +6,7 @@ package main
 // compiled package initialisers).
 
 import (
+	"go/ast"
 	"fmt"
 	"go/constant"
 	"go/token"
@@ -51,6 +52,7 @@ type Unit struct {
 	models   map[string]*Model
 	pureSyms map[string]bool
 	addrTaken map[*ssa.Function]bool
+	litNames  map[token.Pos]string // function literals in package-level var initialisers: stable names
 }
 
 func LoadUnit(name, dir string, patterns []string, env []string, tags string, contractFiles []string, specFile string) (*Unit, error) {
@@ -66,7 +68,41 @@ func LoadUnit(name, dir string, patterns []string, env []string, tags string, co
 	}
 	prog, spkgs := ssautil.AllPackages(pkgs, ssa.GlobalDebug|ssa.BareInits)
 	prog.Build()
-	u := &Unit{Name: name, Prog: prog, fnIDs: map[*ssa.Function]int64{}, lits: map[string]T{}, globals: map[*ssa.Global]*cobj{}, objIDs: map[*cobj]int64{}, pureSyms: map[string]bool{}}
+	// A function literal in the initialiser of a package-level variable is called <Var>$<k> (k-th literal of that
+	// variable's initialiser) instead of go/ssa's init$<n>, whose n shifts whenever another literal is added to the package.
+	litNames := map[token.Pos]string{}
+	packages.Visit(pkgs, nil, func(p *packages.Package) {
+		if !strings.HasPrefix(p.PkgPath, "github.com/ja7ad/otp") {
+			return
+		}
+		for _, f := range p.Syntax {
+			for _, d := range f.Decls {
+				gd, ok := d.(*ast.GenDecl)
+				if !ok || gd.Tok != token.VAR {
+					continue
+				}
+				for _, sp := range gd.Specs {
+					vs := sp.(*ast.ValueSpec)
+					k := 0
+					for _, val := range vs.Values {
+						var walk func(n ast.Node)
+						walk = func(n ast.Node) {
+							ast.Inspect(n, func(m ast.Node) bool {
+								if fl, ok := m.(*ast.FuncLit); ok {
+									k++
+									litNames[fl.Pos()] = fmt.Sprintf("%s$%d", vs.Names[0].Name, k)
+									return false // nested literals keep go/ssa's parent$n naming
+								}
+								return true
+							})
+						}
+						walk(val)
+					}
+				}
+			}
+		}
+	})
+	u := &Unit{Name: name, Prog: prog, fnIDs: map[*ssa.Function]int64{}, lits: map[string]T{}, globals: map[*ssa.Global]*cobj{}, objIDs: map[*cobj]int64{}, pureSyms: map[string]bool{}, litNames: litNames}
 	for _, sp := range spkgs {
 		if sp != nil {
 			u.Pkgs = append(u.Pkgs, sp)
@@ -120,7 +156,21 @@ func (u *Unit) contractKey(fn *ssa.Function) string {
 	if pkg == nil {
 		return fn.String()
 	}
+	if par := fn.Parent(); par != nil && par.Name() == "init" && fn.Syntax() != nil {
+		if n, ok := u.litNames[fn.Syntax().Pos()]; ok {
+			return pkg.Pkg.Name() + "." + n
+		}
+	}
 	return pkg.Pkg.Name() + "." + fn.RelString(pkg.Pkg)
+}
+
+// shortName is the function's name inside its package, with the stable naming of initialiser literals.
+func (u *Unit) shortName(fn *ssa.Function) string {
+	k := u.contractKey(fn)
+	if fn.Pkg != nil && strings.HasPrefix(k, fn.Pkg.Pkg.Name()+".") && fn.Parent() != nil {
+		return k[len(fn.Pkg.Pkg.Name())+1:]
+	}
+	return fn.Name()
 }
 
 func (u *Unit) contractOf(fn *ssa.Function) *FuncContract {
